@@ -3,6 +3,7 @@ package engb
 import (
 	gocontext "context"
 	"fmt"
+	"os"
 	"sort"
 	"sync"
 	"testing"
@@ -96,13 +97,17 @@ type world struct {
 }
 
 func init() {
+	lvl := logrus.PanicLevel
+	if os.Getenv("VERIF_ORDALOG") != "" {
+		lvl = logrus.InfoLevel // debugging aid only: real-time stamps, not part of any replayed state
+	}
 	simhook.LoggerFunc = func(l *logrus.Logger) {
-		l.SetLevel(logrus.PanicLevel)
-		l.SetReportCaller(false)
+		l.SetLevel(lvl)
+		l.SetReportCaller(lvl != logrus.PanicLevel)
 	}
 	// the package-level logger was created before the hook could be set
-	ordalog.Logger.Logger.SetLevel(logrus.PanicLevel)
-	ordalog.Logger.Logger.SetReportCaller(false)
+	ordalog.Logger.Logger.SetLevel(lvl)
+	ordalog.Logger.Logger.SetReportCaller(lvl != logrus.PanicLevel)
 }
 
 func newWorld(t *testing.T, seed uint64) *world {
